@@ -97,7 +97,7 @@ theorem usualArith_self (T : IntTy) : usualArith T T = promote T := by
 theorem promote_promote (T : IntTy) : promote (promote T) = promote T := by
   unfold promote; split
   · rfl
-  · rename_i h; simp [h]
+  · simp
 
 theorem usualArith_i32 (T : IntTy) : usualArith T i32 = promote T := by
   have h := promote_bits_ge T
@@ -111,7 +111,7 @@ theorem usualArith_i32 (T : IntTy) : usualArith T i32 = promote T := by
     simp [this]
   · have hs' : (promote T).signed = false := by simpa using hs
     have : ((promote T).signed == i32.signed) = false := by simp [hs', i32]
-    simp only [this, hs']
+    simp only [hs']
     simp
     intro hlt
     have h32b : i32.bits = 32 := rfl
@@ -581,7 +581,7 @@ theorem promote_signed (T : IntTy) (h : T.signed = true) : (promote T).signed = 
   · exact h
 
 /-- `Integer{-1} - value` for a negative value -/
-theorem neg_one_sub (T : IntTy) (v : Int) (hs : T.signed = true) (h : T.InRange v) (hneg : v < 0) :
+theorem neg_one_sub (T : IntTy) (v : Int) (hs : T.signed = true) (h : T.InRange v) (_hneg : v < 0) :
     cBin .sub (T, -1) (T, v) = .ok (promote T, -1 - v) := by
   have hb := promote_bits_ge T
   have hP := inRange_promote T v h
@@ -1206,7 +1206,7 @@ theorem run_le (p : Nat → Bool) : ∀ (n i : Nat), run p i n ≤ n
     · have := run_le p n (i+1); omega
     · omega
 
-theorem valueBits_le (w : Nat) (hw : 1 ≤ w) (v : Int) (h : (sT w).InRange v) : valueBits v ≤ w - 1 := by
+theorem valueBits_le (w : Nat) (_hw : 1 ≤ w) (v : Int) (h : (sT w).InRange v) : valueBits v ≤ w - 1 := by
   have hr := sT_inRange w v h
   have hM : ((2^(w-1) : Nat) : Int) = 2^(w-1) := by push_cast; rfl
   unfold valueBits
@@ -1214,5 +1214,24 @@ theorem valueBits_le (w : Nat) (hw : 1 ≤ w) (v : Int) (h : (sT w).InRange v) :
   have : (((if v < 0 then -v - 1 else v).toNat : Nat) : Int) < ((2^(w-1) : Nat) : Int) := by
     rw [hM]; split <;> omega
   exact_mod_cast this
+
+/-! ## rotation by a multiple of the width -/
+
+theorem spec_rotl_multiple (w x m : Nat) (hx : x < 2^w) : Spec.Bits.rotl w x (m * w) = x := by
+  apply Nat.eq_of_testBit_eq; intro i
+  unfold Spec.Bits.rotl
+  rw [testBit_ofBits, Nat.mul_mod_left, Nat.sub_zero]
+  by_cases hi : i < w
+  · have : (i + w) % w = i := by rw [Nat.add_mod_right]; exact Nat.mod_eq_of_lt hi
+    simp [hi, this]
+  · simp [hi, testBit_high x w i hx (by omega)]
+
+theorem spec_rotr_multiple (w x m : Nat) (hx : x < 2^w) : Spec.Bits.rotr w x (m * w) = x := by
+  apply Nat.eq_of_testBit_eq; intro i
+  unfold Spec.Bits.rotr
+  rw [testBit_ofBits, Nat.mul_mod_left, Nat.add_zero]
+  by_cases hi : i < w
+  · simp [hi, Nat.mod_eq_of_lt hi]
+  · simp [hi, testBit_high x w i hx (by omega)]
 
 end Cnl.Bits
